@@ -502,7 +502,10 @@ def isSource (w : World) (R f : Nat) : Bool :=
   if f = alwaysId then false else
   let r := getRec w R f
   let ns := readStamp w f
-  if r.isGenerated && (!isFailedR r R || ns != .missing) && !r.isOverride && r.stamp == some ns then false
+  if r.isGenerated && (!isFailedR r R || ns != .missing) && !r.isOverride
+      && (match r.stamp with
+          | some st => !detectOverride st ns     -- as we left it, as far as the builder's own override test can tell
+          | none => false) then false
   else if (!r.isGenerated || r.stamp != some ns) && ns == .missing then false
   else true
 
